@@ -6,6 +6,10 @@ import GdcVerif.Lemmas.Dwt53
 import GdcVerif.Lemmas.Dwt53Levels
 import GdcVerif.Lemmas.Dwt53Int32
 import GdcVerif.Lemmas.Mqc
+import GdcVerif.Lemmas.MqcDec
+import GdcVerif.Lemmas.MqcExact
+import GdcVerif.Lemmas.MqcIdeal
+import GdcVerif.Lemmas.T1Tables
 /-!
   C20 — JPEG 2000 building blocks are exact inverses: RCT, 5/3 DWT, MQ coder, EBCOT T1.
 
@@ -155,11 +159,87 @@ theorem mq_flush_no_trailing_ff (n : Nat) (ds : List (Nat × Nat)) (hds : ∀ d 
 /-- non-vacuity: a concrete sequence over 2 contexts meets the hypothesis -/
 example : ∀ d ∈ [((1 : Nat), (0 : Nat)), (0, 1), (1, 1), (1, 0)], d.2 < 2 := by decide
 
+/-- decoder robustness: for EVERY byte string and every sequence of context ids `< n` the MQ decoder
+(`NewMQDecoder`, then `Decode` per id) returns normally with one bit per request — no index panic, in
+particular no read outside `data ++ [0xFF, 0xFF]`, and the `for a < 0x8000` loop terminates — and ends
+renormalised: `0x8000 ≤ a < 0x10000`, `0 ≤ ct ≤ 8`, `c < 2^32`, `bp` inside the sentinel-extended data -/
+theorem mq_decoder_total (bytes : List Nat) (n : Nat) (cxs : List Nat) (hcx : ∀ cx ∈ cxs, cx < n) :
+    ∃ d0 bits d, Dec.new bytes n = some d0 ∧ decodeAll d0 cxs = some (bits, d) ∧
+      bits.length = cxs.length ∧ (∀ b ∈ bits, b ≤ 1) ∧
+      0x8000 ≤ d.a ∧ d.a < 0x10000 ∧ 0 ≤ d.ct ∧ d.ct ≤ 8 ∧ d.c < 2 ^ 32 ∧ d.bp < bytes.length + 2 :=
+  Mqc.decoder_total bytes n cxs hcx
+
+/-- `byteout()` is value preserving in exact arithmetic, in all four branches (after 0xFF / plain / carry into
+the previous byte / carry that makes the previous byte 0xFF): with `val` the exact integer denoted by the
+emitted bytes (a byte after 0xFF weighs 2^7, any other 2^8), `val'·2^27 + c'·2^ct' = (val·2^27 + c)·2^ct'` -/
+theorem mq_byteout_exact (e : Enc) (x : Nat) (hb : BufOk e.buf e.bp) (hx1 : 1 ≤ x) (hx2 : x ≤ 65536)
+    (hA : e.c + x ≤ 150994944)
+    (hB : 1 ≤ e.bp → rd e.buf (e.bp - 1) = 255 → rd e.buf e.bp * 134217728 + e.c + x ≤ 19327352832) :
+    ∀ e', byteout e = some e' →
+      val e'.buf e'.bp * 134217728 + e'.c * 2 ^ e'.ct.toNat =
+        (val e.buf e.bp * 134217728 + e.c) * 2 ^ e'.ct.toNat := Mqc.byteout_val e x hb hx1 hx2 hA hB
+
+/-- MQ round trip, the part that is proved (interval containment + carry propagation):
+(1) after any decision sequence the code-shaped encoder's emitted bytes and code register denote EXACTLY the
+low end `L` of the ideal (unbounded precision) encoder's interval, and `a` is its width — carries and stuffed
+bytes included; (2) for any code bit source whose value lies in that final interval `[L, L+a)` the ideal
+decoder (state `D = value − L`, `a`; decision by `D < Qe` with the conditional exchange of `Decode`) returns
+exactly the MPS/LPS decisions of the sequence.
+Missing for `mq_roundtrip_FullStatement`: (3) the bytes returned by `Flush`, read with the 0xFF-stuffing rule
+and 1-bit padding, are such a source; (4) the code-shaped decoder (16-bit window, byte-wise look-ahead, carry
+parked in the byte after 0xFF) refines the ideal decoder on it. -/
+theorem mq_roundtrip_partial (n : Nat) (ds : List (Nat × Nat)) (hds : ∀ d ∈ ds, d.2 < n)
+    (src : Nat → Nat) (hsrc : ∀ k, src k ≤ 1) (P0 p0 : Nat) :
+    ∃ e steps, encodeAll (Enc.new n) ds = some e ∧ trace (Enc.new n) ds = some steps ∧
+      Exact e (jrun src { L := 0, a := 0x8000, P := P0, p := p0 } steps).L ∧
+      e.a = (jrun src { L := 0, a := 0x8000, P := P0, p := p0 } steps).a ∧
+      ((jrun src { L := 0, a := 0x8000, P := P0, p := p0 } steps).In →
+        (idecRun src { D := P0, a := 0x8000, p := p0 } (steps.map (·.1))).1 = steps.map (·.2)) :=
+  Mqc.roundtrip_ideal_partial n ds hds src hsrc P0 p0
+
+/-- non-vacuity of the containment hypothesis: with no decisions the final interval is `[0, 0x8000)` and
+any 15-bit prefix lies in it -/
+example : (jrun (fun _ => 1) { L := 0, a := 0x8000, P := 0x7FFF, p := 15 } []).In := by
+  unfold jrun J.In; decide
+
 /-- The full property for the MQ coder: the decoder returns the decisions given to the encoder.
-NOT PROVED (stated only; searched by the harness on the real coder and on the model). -/
+NOT PROVED (stated only; `mq_roundtrip_partial` proves the encoder half and the ideal-arithmetic core;
+searched by the harness on the real coder and on the model). -/
 def mq_roundtrip_FullStatement : Prop :=
   ∀ (n : Nat) (ds : List (Nat × Nat)), (∀ d ∈ ds, d.1 ≤ 1 ∧ d.2 < n) →
     ∃ bytes, encodeBytes n ds = some bytes ∧
       decodeBits bytes n (ds.map (·.2)) = some (ds.map (·.1))
+
+/-! ## EBCOT T1 (no model of the passes: facts about regenerated tables and pass predicates only) -/
+open Gen.J2kT1
+
+/-- the regenerated context tables are well-formed: `lutCtxnoZc` has 2048 entries in `0..8`, `lutCtxnoSc` 256
+entries in `9..13`, `lutSpb` 256 entries in `0..1`; magnitude-refinement contexts are `14..16`; hence every
+context label T1 can pass to the MQ coder is `< NUMCONTEXTS = 19` (the hypothesis of the MQ theorems) -/
+theorem t1_context_tables_wf :
+    (lutCtxnoZc.size = 2048 ∧ ∀ i (h : i < lutCtxnoZc.size), CTXZCSTART ≤ lutCtxnoZc[i] ∧ lutCtxnoZc[i] ≤ CTXZCEND) ∧
+    (lutCtxnoSc.size = 256 ∧ ∀ i (h : i < lutCtxnoSc.size), CTXSCSTART ≤ lutCtxnoSc[i] ∧ lutCtxnoSc[i] ≤ CTXSCEND) ∧
+    (lutSpb.size = 256 ∧ ∀ i (h : i < lutSpb.size), 0 ≤ lutSpb[i] ∧ lutSpb[i] ≤ 1) ∧
+    (∀ flags, CTXMRSTART ≤ getMagRefinementContext flags ∧ getMagRefinementContext flags ≤ CTXMREND) ∧
+    (CTXZCEND < NUMCONTEXTS ∧ CTXSCEND < NUMCONTEXTS ∧ CTXMREND < NUMCONTEXTS ∧ CTXRL < NUMCONTEXTS ∧
+      CTXUNI < NUMCONTEXTS) :=
+  ⟨⟨T1.zc_all.1, T1.zc_range⟩, ⟨T1.sc_all.1, T1.sc_range⟩, ⟨T1.spb_all.1, T1.spb_range⟩, T1.mr_range, T1.context_ids_lt⟩
+
+/-- a block with `planes ≥ 1` coded bit-planes has `3·planes − 2` coding passes (cleanup of the top plane,
+then SPP/MRP/CUP per lower plane) -/
+theorem t1_pass_count (planes : Nat) (h : 1 ≤ planes) : (T1.schedule planes).length = 3 * planes - 2 :=
+  T1.schedule_length planes h
+
+/-- over the regenerated `isLazyRawPass` / `isTerminatingPass`: the coder (MQ vs raw bypass) changes only after
+a terminated pass; under TERMALL every pass is terminated; the last cleanup pass always is -/
+theorem t1_segments_wf (bp mb pt style : Int) (hpt : 0 ≤ pt ∧ pt ≤ 2) :
+    (isLazyRawPass (T1.next bp pt).1 mb (T1.next bp pt).2 style ≠ isLazyRawPass bp mb pt style →
+      isTerminatingPass bp mb pt style = true) ∧
+    (Go.and style CblkStyleTermAll ≠ 0 → isTerminatingPass bp mb pt style = true) ∧
+    isTerminatingPass 0 mb 2 style = true :=
+  ⟨T1.coder_switch_terminated bp mb pt style hpt, T1.terminating_termall bp mb pt style, T1.terminating_last mb style⟩
+
+/-- non-vacuity: in a LAZY block the pass after the cleanup of bit-plane `mb-3` is raw, the cleanup itself is not -/
+example : isLazyRawPass 4 8 0 1 = true ∧ isLazyRawPass 5 8 2 1 = false ∧ isTerminatingPass 5 8 2 1 = true := by decide
 
 end C20
